@@ -148,3 +148,60 @@ def declare_graph(S, n, tag="G"):
 
 def is_bit_claim(c):
     return b_or(O.eq_bits(c, 0), O.eq_bits(c, 1))
+
+
+# ------------------------------------------------------------------------------------------------------
+# density matrices
+# ------------------------------------------------------------------------------------------------------
+def declare_rho(S, n, tag="rho", normalised=True):
+    """symbolic Hermitian N x N matrix (N = 2^n): real diagonal >= 0 with trace 1, complex off-diagonal entries with
+    |Re|, |Im| <= 1.  (Positivity beyond the diagonal is not assumed: every checked identity is linear in rho, so it
+    holds for all Hermitian matrices in the box, a superset of the density matrices.)"""
+    N = 1 << n
+    if S.symbolic:
+        from symnp.arr import SymArray
+        from symnp.sym import SymComplex
+        import z3
+        rho = np.empty((N, N), dtype=object)
+        tr = 0
+        for i in range(N):
+            d = S.real(f"{tag}_d{i}")
+            S.assume(d >= 0)
+            S.assume(d <= 1)
+            tr = tr + d
+            rho[i, i] = SymComplex(d.e, z3.RealVal(0))
+        for i in range(N):
+            for j in range(i + 1, N):
+                c = S.complex_(f"{tag}_c{i}_{j}")
+                for part in (c.real, c.imag):
+                    S.assume(part <= 1)
+                    S.assume(part >= -1)
+                rho[i, j] = c
+                rho[j, i] = c.conjugate()
+        if normalised:
+            S.assume(tr == 1)
+        return {"n": n, "rho": rho.view(SymArray)}
+    rho = np.zeros((N, N), dtype=complex)
+    for i in range(N):
+        rho[i, i] = S.real(f"{tag}_d{i}")
+    for i in range(N):
+        for j in range(i + 1, N):
+            c = S.complex_(f"{tag}_c{i}_{j}")
+            rho[i, j] = c
+            rho[j, i] = np.conj(c)
+    return {"n": n, "rho": rho}
+
+
+def rho_cells(a):
+    a = a if isinstance(a, np.ndarray) else np.asarray(a)
+    return [[a[i, j] for j in range(a.shape[1])] for i in range(a.shape[0])]
+
+
+def dm_state(rho, n):
+    """a real QuantumState('dm') holding the given matrix (constructor bypassed: is_psd / normalisation of the
+    constructor need LAPACK; 'the input is a valid state' is the harness precondition)"""
+    from graphiq.state import QuantumState
+
+    qs = QuantumState(n, rep_type="dm")
+    qs.rep_data.data = rho
+    return qs
